@@ -63,10 +63,11 @@ Definition transfer_col_gen (g : gen) (cat sourcecolname : str) : res (list gen)
                                | Some i => match nth_error [fmt2d i; cat; cat] (gconv geo) with
                                            | Some c => Ok c | None => Raise IndexError end
                                end);
+          do name <- block_name_r (gconv geo) category (cname col);
           do layername <- (if memb cat tops then do l <- column_surface_layer geo col; Ok (lname l)
                            else last_layer_name geo);
-          Ok (mkGen (block_name geo category (cname col)) (block_name geo layername (cname col))
-                    (gtype g') (ggx g') (gltab g') (grate g') (gtag g')))
+          do block <- block_name_r (gconv geo) layername (cname col);
+          Ok (mkGen name block (gtype g') (ggx g') (gltab g') (grate g') (gtag g')))
        mappedcols.
 
 Definition transfer_blk_gen (g : gen) (cat : str) : res (list gen) :=
@@ -79,7 +80,7 @@ Definition transfer_blk_gen (g : gen) (cat : str) : res (list gen) :=
                         do category <- (if Nat.eqb (gconv geo) (gconv sourcegeo) then Ok cat
                                         else match nth_error [s2l " 0"; cat; cat] (gconv geo) with
                                              | Some c => Ok c | None => Raise IndexError end);
-                        Ok (block_name geo category (column_name geo (fst bv)))
+                        block_name_r (gconv geo) category (column_name geo (fst bv))
                       else Ok (gname g'));
           Ok (mkGen name (fst bv) (gtype g') (ggx g') (gltab g') (grate g') (gtag g')))
        mappedblocks.
